@@ -99,6 +99,10 @@ func bytesEq(a, b []Int) Bool {
 		}
 		return r
 	}
+	// an opaque piece (a formatted number or text) is never empty
+	if len(a) == 0 || len(b) == 0 {
+		return Bool{C: len(a) == len(b)}
+	}
 	// aligned comparison only
 	if len(a) != len(b) {
 		panic(inconclusive{"comparison of strings with opaque pieces of different shape"})
